@@ -57,6 +57,11 @@ type DkvTune struct {
 	MemTable      int64 // dkv.memTableSize: a memtable is sealed and flushed once it holds more bytes
 	SmallestLevel int64 // dkv.smallestLevelSize: level i is merged into level i+1 once it holds more than i times this
 	MaxSizeAmpPct int64 // dkv.maxSizeAmpPct: size amplification above which a compaction is a major one (-1: always, MaxInt64: never)
+	// SwapDelay > 0: every flush / compaction task pauses for a pseudo-random time below this before it swaps its
+	// result in (hooks dkv.flush.swap / dkv.compact.swap, outside db.mu): sealed memtables and flushes in flight stay
+	// around while the operators go on (the tasks of all databases of the process run on two serial queues, so this
+	// slows all of them)
+	SwapDelay time.Duration
 }
 
 // DkvStats counts background work of every dkv.DB of this process.
@@ -71,6 +76,7 @@ var dkvHook struct {
 	once      sync.Once
 	mu        sync.Mutex
 	installed bool
+	jitter    int64
 	tune      DkvTune
 	stats     DkvStats
 }
@@ -83,6 +89,14 @@ func InstallDkvTune(t DkvTune) {
 	dkvHook.once.Do(func() {
 		verifhook.Install(func(point string, args ...any) {
 			switch point {
+			case "dkv.flush.swap", "dkv.compact.swap":
+				dkvHook.mu.Lock()
+				d := dkvHook.tune.SwapDelay
+				dkvHook.mu.Unlock()
+				if d > 0 {
+					n := uint64(atomic.AddInt64(&dkvHook.jitter, 1)) * 0x9E3779B97F4A7C15
+					time.Sleep(time.Duration((n >> 33) % uint64(d)))
+				}
 			case "dkv.flush.start":
 				atomic.AddInt64(&dkvHook.stats.FlushStarted, 1)
 			case "dkv.flush.swapped":
